@@ -33,6 +33,8 @@ def run(ctx):
     # what the product also rests on: the search window, group extraction, rotation, the topology handed to the search
     run_kernels(ctx, ["K2", "K1", "K3"], "C01")
     from ..rules_misc import k19_match
-    k19_match(ctx, "C01")
+    ctx.guard(k19_match, ctx, "C01")
     from ..rules_flow import k17_entry
-    k17_entry(ctx, "C01")
+    ctx.guard(k17_entry, ctx, "C01")
+    from ..rules_misc import k21_match_overrides
+    ctx.guard(k21_match_overrides, ctx, "C01")
